@@ -730,6 +730,17 @@ func WithGetControlMessage(cm **ControlMessage) UDPReadOption {
 	})
 }
 
+// setReadDeadline sets the read deadline of the socket below the connection.
+func (c *UDPConn) setReadDeadline(t time.Time) error {
+	if c.connection != nil {
+		return c.connection.SetReadDeadline(t)
+	}
+	if d, ok := c.packetConn.(interface{ SetReadDeadline(t time.Time) error }); ok {
+		return d.SetReadDeadline(t)
+	}
+	return nil
+}
+
 func (c *UDPConn) readWithCfg(buffer []byte, cfg UDPReadCfg) (int, error) {
 	select {
 	case <-cfg.Ctx.Done():
@@ -739,7 +750,22 @@ func (c *UDPConn) readWithCfg(buffer []byte, cfg UDPReadCfg) (int, error) {
 	if c.closed.Load() {
 		return -1, ErrConnectionIsClosed
 	}
+	// The read itself knows nothing of the context. When it ends while the peer is silent - Close of a connection
+	// whose socket belongs to the application cancels it and leaves the socket open - the read is ended by a
+	// deadline, which is taken back at once: the socket is not ours to keep changed.
+	fired := make(chan struct{})
+	stop := context.AfterFunc(cfg.Ctx, func() {
+		defer close(fired)
+		_ = c.setReadDeadline(time.Unix(1, 0))
+	})
 	n, cm, srcAddr, err := c.packetConn.ReadFrom(buffer)
+	if !stop() {
+		<-fired
+		_ = c.setReadDeadline(time.Time{})
+		if err != nil {
+			return -1, cfg.Ctx.Err()
+		}
+	}
 	if err != nil {
 		return -1, fmt.Errorf("cannot read from udp connection: %w", err)
 	}
